@@ -14,6 +14,7 @@ package simrt
 import (
 	"fmt"
 	"runtime"
+	"unsafe"
 	"sort"
 	"strings"
 	"time"
@@ -182,6 +183,7 @@ type Kernel struct {
 	Fatals    []string
 
 	objIDs  map[uintptr]int
+	pins    []unsafe.Pointer
 	pend    map[uintptr][]*pendSend
 	spin    int
 	mapPerm func(n int) []int
@@ -252,6 +254,9 @@ func (k *Kernel) ObjID(key uintptr) int {
 	if !ok {
 		id = len(k.objIDs) + 1
 		k.objIDs[key] = id
+		// pin the object for the rest of the run: a collected address could be reused by a new object,
+		// which would inherit this id depending on GC timing (event-log hashes would then differ)
+		k.pins = append(k.pins, unsafe.Pointer(key)) //nolint:govet
 	}
 	return id
 }
